@@ -95,17 +95,24 @@ def run(seed, tier):
                 "generator of every drawing site; mutable objects reachable from two chains) against Wiring.construct under vm_compute. "
                 "non-trivial = configuration with adaptive state (adaptive proposal or annealer) and >= 2 chains; distinct = configuration")
     terms, metas, keepalive = [], [], []
-    ncfg = 60 if thorough else 16
+    ncfg = 120 if thorough else 44
+    fams = sorted(C.ALL)
+    rng.shuffle(fams)
     real_pools = []
     if thorough:
         real_pools = [multiprocessing.Pool(2), multiprocessing.Pool(4)]
     try:
         for i in range(ncfg):
-            cfg = C.gen(rng)
-            cfg['nchains'] = rng.choice([2, 3, 4])
+            if i < len(fams) or (thorough and i % 2 == 0):
+                cfg = C.gen(rng, kind='family')              # every proposal family takes its turn
+                cfg['family'] = fams[i % len(fams)]
+                cfg['T'] = rng.choice([15, 40])              # the second run() call starts inside the adaptation window
+            else:
+                cfg = C.gen(rng)
+            cfg['nchains'] = rng.choice([2, 3]) if not thorough else rng.choice([2, 3, 4])
             if i % 4 == 0 and cfg['pt'] and cfg['ntemps'] >= 3 and not cfg['annealer']:
                 cfg['annealer'] = dict(tau=rng.choice([20, 50]), nu=rng.choice([1, 2]), tmax=rng.random() < 0.6)
-            segments = rng.choice([[6], [3, 4], [2, 1, 5], [10]])
+            segments = rng.choice([[6], [5, 4], [4, 1, 5], [6, 6]])
             out.count('kind_' + cfg['kind'])
             out.count('pt' if cfg['pt'] else 'mh')
             if cfg['annealer']:
